@@ -129,3 +129,30 @@ fn c18_uenumb_valid_after_failed_field() {
     let r2 = cur.assign_in_place(UEnumBInitA).map(|_| ());
     assert!(r2.is_ok(), "C18: a second assignment after a failed one does not succeed");
 }
+
+/// C20: default_in_place of sized types whose Default is not all-zero, and of an unsized enum whose #[default] variant is
+/// neither the first nor the only unit variant: the documented default, whatever the buffer held before
+#[kani::proof]
+#[kani::unwind(12)]
+fn c20_nonzero_defaults() {
+    // BOUNDED: one buffer per type (8 bytes), prior contents symbolic; loop-free library code: complete for these definitions
+    let mut back: [u8; 8] = kani::any();
+    kani::assume((back.as_ptr() as usize) % 8 == 0);
+    {
+        let v = CEnumD::default_in_place(&mut back[..1]).unwrap();
+        assert!(*v == CEnumD::B && *v == CEnumD::default(), "C20: default_in_place differs from Default::default()");
+    }
+    assert!(back[0] == 1, "C20: default image of the enum is not the #[default] variant's tag");
+    {
+        let v = SDef::default_in_place(&mut back[..6]).unwrap();
+        assert!(*v == SDef::default(), "C20: default_in_place differs from Default::default()");
+        assert!(v.a == 7 && v.b == 0x1234 && v.e == CEnumD::C, "C20: default_in_place differs from Default::default()");
+        assert!(SDef::validate(v.as_bytes()).is_ok(), "C20: default value does not validate");
+    }
+    let mut back2: [u8; 8] = kani::any();
+    kani::assume((back2.as_ptr() as usize) % 8 == 0);
+    let v = UEnumD::default_in_place(&mut back2[..4]).unwrap();
+    assert!(matches!(v.as_ref(), UEnumDRef::Idle), "C20: default variant is not the one marked #[default]");
+    assert!(v.size() == 2, "C20: size() is not minimal");
+    assert!(UEnumD::validate(v.as_bytes()).is_ok(), "C20: default value does not validate");
+}
